@@ -18,7 +18,7 @@ func init() {
 	})
 	register(&Property{
 		ID: "C33",
-		Explanation: "Decides effects and order of repair index: (no-pack-removal) the call closure of repository.RepairIndex (static callees, function literals, function values, interface calls resolved by class-hierarchy analysis over the module; calls on backend.Backend are the effect boundary) contains neither PrunePlan.Execute nor RepairPacks — the only pack removers by rule pack-removers —, every removal call with a constant file type in the closure names IndexFile, and the only direct backend Remove in it is the removeUnpacked wrapper; (repair-order) rewriteIndexFiles is reachable from the pack-reading step only through createIndexFromPacks' success edge and after successful listings; in createIndexFromPacks a pack's entries enter the index (StorePack) only on the success edge of listPack for that pack with the entries just listed — unreadable packs are never indexed — and success requires the workers and the flush to succeed; (rewrite-order) obsolete index files are removed only after all new ones were saved. Not decided: that the listed positions equal the true positions (C06) for every pack content.",
+		Explanation: "Decides effects and order of repair index: (no-pack-removal) the call closure of repository.RepairIndex (static callees, function literals, function values, interface calls resolved by class-hierarchy analysis over the module; calls on backend.Backend are the effect boundary) contains neither PrunePlan.Execute nor RepairPacks — the only pack removers by rule pack-removers —, every removal call with a constant file type in the closure names IndexFile, and the only direct backend Remove in it is the removeUnpacked wrapper; (repair-order) rewriteIndexFiles is reachable from the pack-reading step only through createIndexFromPacks' success edge and after successful listings; in createIndexFromPacks a pack's entries enter the index (StorePack) only on the success edge of listPack for that pack with the entries just listed — unreadable packs are never indexed — and success requires the workers and the flush to succeed; (rewrite-order) obsolete index files are removed only after all new ones were saved; (reread-implies-removed) in the pack listing callback of RepairIndex every pack put into the to-read map is inserted into removePacks (the set whose entries Rewrite drops) with the same ID, both happen for packs unknown to the index and for size mismatches (specialised evaluation of the lookup result and the size comparison), and packs the index mentions but the listing lacks are inserted too — added after a seeded change that kept stale entries of size-mismatched packs. Not decided: that the listed positions equal the true positions (C06) for every pack content.",
 		Assumptions: commonAssumptions,
 		Technique:   "static analysis: call-graph effect closure (CHA within the module, backend interface as boundary) + CFG edge cuts (go/ssa)",
 		AllConfigs:  true,
@@ -28,8 +28,11 @@ func init() {
 			ruleRewriteOrder(c)
 			ruleRewriteDedupSet(c)
 			rulePackRemovers(c)
+			ruleRereadImpliesRemoved(c)
 		},
 		Controls: []Control{
+			{Name: "size-mismatch-keeps-stale-entries", File: "internal/repository/repair_index.go",
+				Old: "			packSizeFromList[id] = packSize\n			removePacks.Insert(id)\n		}\n		if !ok {", New: "			packSizeFromList[id] = packSize\n		}\n		if !ok {\n			removePacks.Insert(id)", Rule: "reread-implies-removed"},
 			{Name: "repair-index-removes-mismatched-packs", File: "internal/repository/repair_index.go",
 				Old: "	// drop outdated in-memory index\n	repo.clearIndex()\n	return nil\n}\n\nfunc rewriteIndexFiles(", New: "	_ = restic.ParallelRemove(ctx, &internalRepository{repo}, removePacks, restic.PackFile, nil, restic.NoopCounter)\n	// drop outdated in-memory index\n	repo.clearIndex()\n	return nil\n}\n\nfunc rewriteIndexFiles(", Rule: "no-pack-removal"},
 			{Name: "index-unreadable-packs-anyway", File: "internal/repository/repository.go",
